@@ -210,4 +210,39 @@ def run(ck):
 
 
 def replay(rp):
+    import random
+    inp = rp['input']
+    if inp.get('kind') == 'wave' and 'circuit' in inp:
+        try:
+            desc, what = wave_options(random.Random(0), wk.from_description(inp))
+        except Exception:
+            return True
+        return what is not None
+    if inp.get('kind') == 'logic' and 'circuit' in inp:
+        c = cg.from_description(inp['circuit'])
+        stim = np.array(inp['stimulus'], dtype=np.uint8)
+        m = inp['m']
+        ref = None
+        try:
+            for reuse in (False, True):
+                for strip in (False, True):
+                    if strip and not has_input_forks(c):
+                        continue
+                    for twice in (False, True):
+                        from kyupy import logic, logic_sim
+                        s2 = logic_sim.LogicSim(c, sims=stim.shape[1], m=m, c_reuse=reuse, strip_forks=strip)
+                        s2.s[0] = logic.mv_to_bp(stim)
+                        s2.s_to_c(); s2.c_prop()
+                        if twice:
+                            s2.c_prop()
+                        s2.c_to_s()
+                        mask = lc.ppo_mask(s2)
+                        v = np.where(mask[:, None], logic.bp_to_mv(s2.s[1])[:, :stim.shape[1]], 255)
+                        if ref is None:
+                            ref = v
+                        elif not np.array_equal(ref, v):
+                            return True
+        except Exception:
+            return True
+        return False
     return True
